@@ -24,6 +24,8 @@ type c18Scenario struct {
 	OnTick     bool       `json:"end_on_a_tick,omitempty"`
 	RefuseDial bool       `json:"reconnection_refused,omitempty"`
 	PeerDrops  bool       `json:"peer_drops_when_keepalive_fails,omitempty"` // the read side notices the loss while the keepalive is closing the transport
+	UnstallMs  int        `json:"peer_reads_again_after_ms,omitempty"` // with peer_stops_reading: the peer reads again this long after it closed the stream (0: never)
+	Prior      bool       `json:"after_an_earlier_session_ended_by_disconnect,omitempty"` // the same client had a session before, which the application ended with Disconnect
 	Stalled    bool       `json:"peer_stops_reading,omitempty"`              // the server stops reading (a sender and then the keepalive block in write) and later closes the stream
 	EndAfterNs int64      `json:"end_after_ns,omitempty"`
 	Ticks      int        `json:"observe_ticks"`
@@ -78,7 +80,9 @@ func runC18(e *Engine, g G, o RunOpt) RunInfo {
 	if sc.End == "server-close" && !sc.OnTick && !sc.Busy && !sc.Block && !sc.Reconnect && !sc.TLS && !sc.Client.WebSocket && g.Pct("stalled-peer", 30) {
 		sc.Stalled = true
 		sc.LatencyNs = 0
+		sc.UnstallMs = []int{0, 5000}[g.N("unstall", 2)]
 	}
+	sc.Prior = !sc.Client.WebSocket && !sc.TLS && !sc.Reconnect && g.Pct("prior-session", 15)
 	e.Net.Latency = time.Duration(sc.LatencyNs)
 	interval := time.Duration(sc.IntervalNs)
 
@@ -115,6 +119,27 @@ func runC18(e *Engine, g G, o RunOpt) RunInfo {
 		}
 		if !ok {
 			return
+		}
+		if sc.Prior {
+			// an earlier session of this client, ended by the application: whatever that left behind in
+			// the client or its transport must not change how the next session is kept alive
+			e.Sleep(interval/2 + 11*time.Microsecond)
+			e.Call("Disconnect(previous session)", s.W.Client.Disconnect)
+			e.Sleep(time.Duration(sc.Client.ConnectTimeout+2) * time.Second)
+			srvScript2 := DefaultNeg()
+			srvScript2.SM = sc.Client.SM
+			for len(s.Srv.Scripts) < 2 {
+				s.Srv.Scripts = append(s.Srv.Scripts, srvScript2)
+			}
+			err, _ := e.Call("Connect(again)", s.W.Client.Connect)
+			if err != nil || len(s.Srv.Conns) != 2 {
+				return
+			}
+			s.Conn = s.Srv.Conns[1]
+			s.Cli = s.Conn.Pipe.Cli
+			s.W.Events = nil
+			s.W.Errors = nil
+			e.Probe("c18.after_an_earlier_session")
 		}
 		established = true
 		t0 = e.Now()
@@ -236,6 +261,14 @@ func runC18(e *Engine, g G, o RunOpt) RunInfo {
 					s.Conn.Send("</stream:stream>")
 				}
 				e.Fault("server.graceful_close")
+				if sc.Stalled && sc.UnstallMs > 0 {
+					// the peer reads again a little later (well within the connect timeout): the writes that
+					// were held up complete - the keepalive among them belongs to the session that is ending
+					e.Go("unstall", func() {
+						e.Sleep(time.Duration(sc.UnstallMs)*time.Millisecond + 3*time.Microsecond)
+						s.Conn.PauseReads = false
+					})
+				}
 			}
 			// the session is over once the loss was reported / Disconnect returned
 			if sc.End == "disconnect" {
